@@ -1,0 +1,20 @@
+//go:build verif
+
+package dials
+
+// VerifHook, when set, is called at every verifPoint with the name of the
+// point.  It is package-global: a harness process drives one Dials at a time.
+// Only built with the verif tag.
+var VerifHook func(point string)
+
+func verifPoint(point string) {
+	if h := VerifHook; h != nil {
+		h(point)
+	}
+}
+
+// VerifQueueLens reports the number of events queued for the callback
+// goroutine and the number of pending EnableVerification requests.
+func VerifQueueLens[T any](d *Dials[T]) (cb int, ctl int) {
+	return len(d.cbch), len(d.monCtl)
+}
